@@ -1009,6 +1009,35 @@ func c17Tasks(tier string) []mc.Task {
 			}
 		}})
 	}
+	// composition dominated by one amino acid (a low-complexity alignment): the 20 amino acids once each, the
+	// L column weighing 19000 or 1999 sites, plus every pair of columns over {L,A,R}; with empirical
+	// frequencies the scaled rate matrix then has eigen values far below -745, where exp(lambda) alone is 0
+	// although exp(lambda*d) is not for the short distances of such pairs
+	for _, model := range c17Models {
+		model := model
+		ts = append(ts, mc.Task{Name: fmt.Sprintf("skewed-composition#%s", c17ModelNames[model]), Run: func(c *mc.Ctx) {
+			for _, heavy := range []float64{19000, 1999} {
+				if heavy != 19000 && tier != "thorough" {
+					continue
+				}
+				for _, ga := range c17Alphas {
+					if ga != 0 && ga != 0.5 {
+						continue
+					}
+					w := make([]float64, 22)
+					for i := range w {
+						w[i] = 1
+					}
+					w[strings.IndexByte(c17AAs, 'L')] = heavy
+					forEachAlignment("LAR", 2, 2, func(tail []string) bool {
+						seqs := []string{c17AAs + tail[0], c17AAs + tail[1]}
+						c17Check(c, c17Case{Seqs: seqs, Model: model, ModelFreqs: false, Alpha: ga, Weights: w})
+						return !c.Expired()
+					})
+				}
+			}
+		}})
+	}
 	// weights together with gap-site removal on three columns: a removed column in front of columns of
 	// different weights (the weight of a column travels with the column, not with its rank among the kept ones)
 	for _, model := range c17Models {
